@@ -552,6 +552,8 @@ def _mirrors_entry(v: FuncView, name: str, o: TOp) -> bool:
         val = d.value
         if isinstance(val, ast.Subscript) and (v.table_of(val.value) or (None, None))[1] == o.table and _same_expr(val.slice, o.key):
             continue
+        if isinstance(val, ast.Call) and isinstance(val.func, ast.Attribute) and val.func.attr == "get" and val.args and (v.table_of(val.func.value) or (None, None))[1] == o.table and _same_expr(val.args[0], o.key):
+            continue  # T.get(key[, sentinel]): the entry when there is one
         blk = v.parent.get(id(d))
         stored = [x for x in v.ops() if x.table == o.table and x.op == "store" and not x.elem_level and isinstance(x.value, ast.Name) and x.value.id == name and x.key is not None and _same_expr(x.key, o.key) and v.parent.get(id(x.at)) is blk]
         if not stored:
